@@ -150,3 +150,34 @@ def exhaustive_cover_cases(algs, Bs, max_len):
                 if len(ms) >= 2:
                     res.append({"alg": alg, "vals": list(ms), "p": {"B": B}})
     return res
+
+
+def narrow_cases(rng, algs, count, kinds):
+    """cases for the "narrow" presentation (numpy arrays of 8- / 16-bit integers): every value fits the type (<= 127, 255 or 32767),
+    the totals - of a bin, of all items - leave its range.  kinds: alg -> 'partition' | 'pack' | 'cover'."""
+    res = []
+    for alg in algs:
+        for _ in range(count):
+            top = rng.choice([127, 127, 255, 255, 32767])
+            kind = kinds[alg]
+            if kind == "partition":
+                n = rng.randint(3, min(max_n(alg), 7))
+                vals = [rng.randint(top // 4, top) for _ in range(n)]
+                if alg == "ilp":
+                    vals = [min(v, 200) for v in vals]
+                p = part_params(rng, alg, n, k=(2 if alg == "cbldm" else rng.choice([2, 3])), objs=OBJS5)
+            elif kind == "pack":
+                B = rng.randint(top // 2 + 1, top)
+                n = rng.randint(3, 9)
+                vals = [rng.randint(0 if rng.random() < 0.1 else B // 6, B) for _ in range(n)]
+                if rng.random() < 0.3:          # exact fills at the top of the type's range: [100, 27] with bin size 127
+                    a = rng.randint(1, B - 1)
+                    vals[:2] = [a, B - a]
+                p = {"B": B}
+            else:
+                B = rng.randint(top // 2 + 1, top)
+                n = rng.randint(3, 12)
+                vals = [rng.randint(1, top) if rng.random() < 0.8 else rng.randint(1, max(1, B // 3)) for _ in range(n)]
+                p = {"B": B}
+            res.append({"alg": alg, "vals": vals, "p": p})
+    return res
